@@ -22,7 +22,7 @@ TRUSTED = ['least_squares / find_root numerics (only the structure of their resu
 ASSUMPTIONS = ['an exception is an admissible outcome of an operation (the property constrains returned objects); '
                'exceptions for combinations inside the closure clause are reported separately as closure-exception']
 
-KINDS = ['obs', 'cobs', 'int', 'float', 'complex0', 'complex', 'ndarray']
+KINDS = ['obs', 'cobs', 'int', 'float', 'complex0', 'complex', 'ndarray', 'npfloat', 'npint', 'npcomplex', 'cndarray']
 OPS = ['add', 'sub', 'mul', 'div', 'pow']
 
 
@@ -138,6 +138,14 @@ def operand(kind, rng, nprng, pool):
         return complex(rng.choice([1.0, 0.5]), rng.choice([0.5, -1.5]))
     if kind == 'ndarray':
         return np.array([1.0, 2.0])
+    if kind == 'npfloat':
+        return np.float64(1.5)
+    if kind == 'npint':
+        return np.int64(2)
+    if kind == 'npcomplex':
+        return np.complex128(complex(0.5, -1.5))
+    if kind == 'cndarray':
+        return np.array([1.0 + 0.5j, 2.0 - 1.0j])
     raise ValueError(kind)
 
 
@@ -148,7 +156,7 @@ def apply(op, a, b):
 def closure_domain(op, lk, rk):
     """combinations the closure clause speaks about: real / complex observables with real or complex
     numbers (and each other), at least one observable involved"""
-    if 'ndarray' in (lk, rk):
+    if 'ndarray' in (lk, rk) or 'cndarray' in (lk, rk):
         return False
     if lk not in ('obs', 'cobs') and rk not in ('obs', 'cobs'):
         return False
@@ -172,7 +180,7 @@ def check_table(ctx, case):
             # CObs has no power operator at all (TypeError: unsupported operand) - that is a refusal, not a malformed object
             probs.append(('violation', 'closure-exception:%s:%s:%s' % (op, lk, rk), '%s: %s' % (type(e).__name__, str(e)[:100])))
         return probs
-    bad = wf_any(r)
+    bad = [b_ for x_ in r.ravel() for b_ in wf_any(x_)] if isinstance(r, np.ndarray) else wf_any(r)
     if bad:
         probs.append(('violation', 'closure:%s:%s:%s' % (op, lk, rk), bad[:3]))
     elif closure_domain(op, lk, rk) and not isinstance(r, (pe.Obs, pe.CObs)):
@@ -180,7 +188,7 @@ def check_table(ctx, case):
     return probs
 
 
-MALFORMED = ['cov_grad_neg', 'cov_grad_indef', 'cov_grad_asym', 'cov_neg', 'dup_names', 'nonstring_name', 'unsorted_idl', 'dup_idl', 'len_mismatch', 'too_few', 'multi_ens', 'len_names',
+MALFORMED = ['cov_asym_tiny', 'cov_asym_9th_digit', 'cov_grad_neg', 'cov_grad_indef', 'cov_grad_asym', 'cov_neg', 'dup_names', 'nonstring_name', 'unsorted_idl', 'dup_idl', 'len_mismatch', 'too_few', 'multi_ens', 'len_names',
              'len_idl', 'decreasing_range', 'cov_pipe', 'cov_asym', 'cov_indef', 'descending_list', 'ok_control']
 
 
@@ -216,6 +224,10 @@ def check_malformed(ctx, case):
         cov = lambda: pe.cov_Obs(1.0, 0.1, 'a|b')  # noqa: E731
     elif k == 'cov_asym':
         cov = lambda: pe.cov_Obs([1.0, 2.0], [[1.0, 0.5], [0.1, 1.0]], 'cv')  # noqa: E731
+    elif k == 'cov_asym_tiny':
+        cov = lambda: pe.cov_Obs([1.0, 2.0], [[2e-9, 1e-9], [-1e-9, 2e-9]], 'cv')  # noqa: E731
+    elif k == 'cov_asym_9th_digit':
+        cov = lambda: pe.cov_Obs([1.0, 2.0], [[1.0, 0.5], [0.5 + 1e-9, 1.0]], 'cv')  # noqa: E731
     elif k == 'cov_neg':
         cov = lambda: pe.cov_Obs(1.0, -0.25, 'cv')  # noqa: E731
     elif k == 'cov_grad_neg':
